@@ -106,7 +106,7 @@ def crash_sig(err):
     return "exit"
 
 
-def run_c(exe, items, fill=None, shard=48):
+def run_c(exe, items, fill=None, shard=48, args=()):
     """items: list of (id, mode, desc).  A crash loses only the case being run: the rest of the shard is re-run."""
     env = C.run_env()
     if fill:
@@ -118,7 +118,7 @@ def run_c(exe, items, fill=None, shard=48):
         out_all = {}
         while part:
             inp = "".join("%s %s %s\n" % (i, m, hx(d)) for i, m, d in part)
-            rc, out, err = C.sh([exe], input=inp.encode(), env=env, timeout=600)
+            rc, out, err = C.sh([exe] + list(args), input=inp.encode(), env=env, timeout=600)
             r = parse_out(out.decode(errors="replace"))
             out_all.update(r)
             if rc == 0:
@@ -275,8 +275,19 @@ def judge(run, cases, model, cres, exe, drv, limit):
                                   replay_text(desc, "only impl:\n%s\nonly model:\n%s\n" % ("\n".join(da), "\n".join(db))), no_input=True)
                 else:
                     run.cov["traces_validated_against_impl"] += 1
+            natt = [len([a for a in kv.get("att", "").split(";") if a]) for kv in (dict(x.split("=", 1) for x in l.split()[2:] if "=" in x) for l in m["L"])]
+            awid = [kv["width"] for kv, a in zip((dict(x.split("=", 1) for x in l.split()[2:] if "=" in x) for l in m["L"]), natt) if a]
+            v1_depths = len(set(awid)) >= 2                    # NUMA nodes below parents of different depths: refused for every V1 flag word
+            v1_multi = len(set(awid)) == 1 and sum(natt) >= 2  # several NUMA nodes at one place: refused unless memory is ignored
             for r in c["rt"]:
                 run.bump("export:" + ("ok" if " ok" in r else "fails" if "export-fails" in r else "FAIL"))
+                mm = re.match(r"rt f=(\d+) (export-fails|ok n=)", r)
+                if mm and int(mm.group(1)) < 16:
+                    fl, failed = int(mm.group(1)), mm.group(2) == "export-fails"
+                    v1_must_fail = v1_depths or v1_multi
+                    if failed != bool((fl & 4) and (v1_depths or (v1_multi and not (fl & 8)))):
+                        run.violation("export-v1-rule:f=%d" % fl, "export with flags %d %s although the description attaches NUMA nodes %s (v1 can express one NUMA node per object at a single depth only)" % (
+                            fl, "fails" if failed else "succeeds", "at several places" if v1_must_fail else "in a v1-compatible way"), replay_text(desc, r))
                 if " FAIL " in r:
                     mm = re.match(r"rt f=(\d+) FAIL (\S+)", r)
                     fl, why = int(mm.group(1)), mm.group(2)
@@ -343,6 +354,95 @@ def spec_interleaving(run, cases, cres):
         run.bump("spec:interleaving:" + ("ok" if bad is None else "MISMATCH"))
         if bad:
             run.violation("spec:interleaving-order", "type-based index interleaving of %r is not the documented one: %s" % (desc, bad), replay_text(desc, bad))
+
+
+def spec_implicit_numa(run, cases, cres):
+    """doc/hwloc.doxy: "A NUMA level (with a single NUMA node) is automatically added if needed."  Independent of the
+    model: a description without '[' and without a NUMA-typed item must load with exactly one NUMA node, os_index 0,
+    local to all PUs."""
+    for idx, (kind, d) in enumerate(cases):
+        c = cres.get(str(idx))
+        if not c or not c.get("loaded") or "[" in d or re.search(r"(?i)(^|[\s)])n[uo]", d) or re.search(r"(^|\s)[0-9+-]", d) or not all(32 <= ord(ch) < 127 or ch == "\n" for ch in d):
+            continue
+        numa = [l.split() for l in c["objs"] if l.startswith("M ")]
+        pus = sorted(int(l.split()[2]) for l in c["objs"] if l.startswith("O 4 "))
+        ok = len(numa) == 1 and numa[0][1] == "0" and sorted(int(x) for x in numa[0][4].split(",")) == pus
+        run.bump("spec:implicit-numa:" + ("ok" if ok else "MISMATCH"))
+        if not ok:
+            run.violation("spec:implicit-numa-node", "description %r mentions no NUMA node but the loaded topology does not have the single default NUMA node (os_index 0, all PUs): %s" % (
+                d[:100], [" ".join(x[:4]) for x in numa][:4]), replay_text(d, "\n".join(" ".join(x) for x in numa[:8])))
+
+
+def verbose_pass(run, cases, model, cres, exe):
+    """HWLOC_SYNTHETIC_VERBOSE=1: the messages format pointers into the description ('%s' of pos/attr/tmp).  Spec: the
+    verbosity changes neither the verdict nor the loaded objects, every quoted text is a suffix of the description,
+    and no sanitizer report."""
+    sel = []
+    for idx, (kind, d) in enumerate(cases):
+        m, c = model.get(str(idx)), cres.get(str(idx))
+        if not m or not c or "crash" in c or m["set"] is None or m["set"].startswith("fault") or "\n" in d or "\r" in d or "'" in d:
+            continue
+        if kind in ("corpus", "handmade", "boundary") or m["set"] == "rc=-1" or m["L"] and any("idx=" in l and "idx=-" not in l for l in m["L"]) or "indexes=" in d:
+            sel.append((idx, "l" if c["loaded"] and len(c["objs"]) < 400 else "p", d))
+    if run.tier == "quick":
+        sel = sel[:700]
+    vres = run_c(exe, sel, args=["--verbose"])
+    for idx, mode, d in sel:
+        v, c = vres.get(str(idx)), cres[str(idx)]
+        if v is None:
+            continue
+        if "crash" in v:
+            run.violation("verbose-crash:" + crash_sig(v["crash"][1]), "crash / sanitizer report with HWLOC_SYNTHETIC_VERBOSE=1 on %r" % d[:80], replay_text(d, v["crash"][1]))
+            continue
+        if v["set"] != c["set"] or (mode == "l" and sorted(v["objs"]) != sorted(c["objs"])):
+            run.violation("verbose-changes-result", "HWLOC_SYNTHETIC_VERBOSE=1 changes the outcome for %r" % d[:80], replay_text(d, "verbose: %s\nquiet: %s" % (v["set"], c["set"])))
+            continue
+        bad = None
+        for line in v["other"]:
+            if line.startswith("hwloc/synthetic: Ignoring") or "'" not in line:
+                continue
+            l2 = line.replace("doesn't", "doesnt").replace("between '*' and ':'", "").replace("before '*'", "").replace("`]'", "").replace("`:'", "")
+            parts = l2.split("'")
+            if len(parts) % 2 == 0 or any(not d.endswith(q) for q in parts[1::2]):
+                bad = line
+                break
+        run.bump("verbose:" + ("ok" if not bad else "BAD"))
+        if v["other"]:
+            run.bump("verbose:cases-with-messages")
+        if bad and v["set"] == "rc=-1" and all(ord(ch) < 128 for ch in d):
+            # only judged on the rejected description itself (messages printed while re-importing exports quote other strings)
+            run.violation("verbose-message-quote", "verbose message quotes text that is not a suffix of the description %r: %s" % (d[:80], bad[:200]), replay_text(d, bad))
+
+
+def env_pass(run, cases, model, cres, exe):
+    """HWLOC_COMPONENTS=synthetic + HWLOC_SYNTHETIC=<description> (hwloc_synthetic_component_instantiate without data)
+    must build the same objects as hwloc_topology_set_synthetic()."""
+    sel = []
+    for idx, (kind, d) in enumerate(cases):
+        c = cres.get(str(idx))
+        if c and c.get("loaded") and "crash" not in c and 0 < len(c["objs"]) < 300 and d and "\x00" not in d:
+            sel.append((idx, "e", d))
+    sel = sel[:150] if run.tier == "quick" else sel[:3000]
+    eres = run_c(exe, sel + [("nodesc", "en", "x")], shard=1 if False else 24)
+    for idx, mode, d in sel:
+        e, c = eres.get(str(idx)), cres[str(idx)]
+        if e is None:
+            continue
+        if "crash" in e:
+            run.violation("env-crash:" + crash_sig(e["crash"][1]), "crash loading HWLOC_SYNTHETIC=%r" % d[:80], replay_text(d, e["crash"][1]))
+        elif "envload rc=0" not in e["other"] or "backend Synthetic" not in e["other"] or sorted(e["objs"]) != sorted(c["objs"]):
+            run.violation("env-load-differs", "HWLOC_SYNTHETIC=%r does not build what hwloc_topology_set_synthetic() builds" % d[:80],
+                          replay_text(d, "\n".join(e["other"][:5])))
+        else:
+            run.bump("env-load:ok")
+    nd = eres.get("nodesc")
+    if nd is not None:
+        if "crash" in nd:
+            run.violation("env-nodesc-crash", "HWLOC_COMPONENTS=synthetic without HWLOC_SYNTHETIC crashes", nd["crash"][1], no_input=True)
+        elif "backend Synthetic" in nd["other"]:
+            run.violation("env-nodesc-synthetic", "HWLOC_COMPONENTS=synthetic without HWLOC_SYNTHETIC still enabled the synthetic backend", "\n".join(nd["other"]), no_input=True)
+        else:
+            run.bump("env-load:nodesc-refused")
 
 
 def wf_pass(run, cases, model, items):
@@ -427,6 +527,9 @@ def check(run, replay=None):
         run.violation("harness-error", "C harness failed outside a case: " + e[-200:], e, no_input=True)
     judge(run, cases, model, cres, exe, drv, limit)
     spec_interleaving(run, cases, cres)
+    spec_implicit_numa(run, cases, cres)
+    verbose_pass(run, cases, model, cres, exe)
+    env_pass(run, cases, model, cres, exe)
     wf_pass(run, cases, model, items)
     run.cov["rule"] = "one case = one description string; non-trivial = accepted by the model; loaded and compared object-by-object when <= %d objects" % limit
     run.cov["loaded_and_compared"] = sum(1 for i, m_, d in items if m_ == "l")
